@@ -26,8 +26,9 @@ ASSUMPTIONS = [
     "H_tsn: arrivals within 2^31 TSNs of the cumulative point (bounded packet lifetime; same hypothesis as C05)",
     "H_ssn: a chunk belongs to a message fewer than 2^15 messages ahead of the messages already read on its stream "
     "(violated by >32768 unread small messages on one stream: finding D16, key c01-ordered-message-beyond-2p15-span-dropped)",
-    "proved for DATA mode (no interleaving), ordered messages on every stream, no stream reset / FORWARD-TSN in the history; "
-    "I-DATA mode and histories with unordered messages on the same stream are covered by the differentials and the simulator monitor only",
+    "proved for DATA mode and for I-DATA mode (interleaving), ordered messages on every stream, no stream reset / FORWARD-TSN in "
+    "the history; histories that also carry unordered messages, resets or forward skips are covered by the differentials and the "
+    "simulator monitor only; the written-messages form (generator proved well-formed) is closed for DATA mode",
 ]
 
 
@@ -39,6 +40,8 @@ def _key(line):
 def correspondence(ctx):
     vlib.differential(ctx, "e2e-receiver-step-commuting", "TestVerifE2ERecv", "e2e",
                       {"VERIF_N": ctx.scale(150, 4000), "VERIF_OPS": 160})
+    vlib.differential(ctx, "e2e-receiver-sim-step-commuting", "TestVerifSimRecv", "e2e",
+                      {"VERIF_N": ctx.scale(30, 800), "VERIF_EVENTS": 250})
     vlib.differential(ctx, "rq-differential", "TestVerifRQ", "rq",
                       {"VERIF_N": ctx.scale(200, 4000), "VERIF_OPS": 100,
                        "VERIF_CORPUS": os.path.join(vlib.VERIF, "corpus/rq.ops")})
@@ -59,10 +62,13 @@ def search(ctx):
 
 LEVEL_TEXT = ("Coq theorem c01_ordered_prefix over all well-formed sender universes, all arrival lists (any order, duplication, "
               "omission), all interleavings of reads with any buffer sizes, all receive-buffer sizes / entry limits / initial TSNs: "
-              "on every stream the messages read are messages 0..n-1 in order with equal bytes and PPI (DATA mode, ordered messages), "
+              "on every stream the messages read are messages 0..n-1 in order with equal bytes and PPI (DATA mode: c01_ordered_prefix, "
+              "c01_ordered_prefix_written; I-DATA mode: c01_ordered_prefix_idata), "
               "under H_tsn and H_ssn; the buffer-full admission rule is the code's own. The composed receiver model is tied to the "
               "code by a step-commuting differential on a bare Association (state dump of bitmap + every stream queue after every "
               "chunk / read), its components by their own differentials, the whole by the simulator monitor P_C01.")
-LEVEL_NOTE = ("Partial: I-DATA mode and the link 'real sender => well-formed universe' are not closed inside one Coq theorem "
-              "(ingredients proved separately, see notes/C01.md). H_ssn is necessary: D16 is reproduced on the implementation.")
+LEVEL_NOTE = ("Partial: the link 'real sender (StreamW + PQ + Sender models) => well-formed universe' is not closed inside one Coq "
+              "theorem (the generator e2e/g_U is proved well-formed; that packetize + pending queue + TSN assignment compute that "
+              "generator rests on sw_frags_spec, c17_msg_contiguous, c17_fifo_per_stream and the simulator monitor). "
+              "H_ssn is necessary: D16 is reproduced on the implementation.")
 TECHNIQUE = "Coq proof (per-queue invariant + composition with the C05 bitmap ghost) + step-commuting / component differentials + simulator monitor"
